@@ -71,7 +71,8 @@ func decomposeWeights(params *model.DecisionMakingParams) *model.Weights {
 	for _, c := range params.Criteria {
 		weights[c.Id] = 0
 	}
-	for _, a := range params.ConsideredAlternatives {
+	// summed in the order of the alternatives' ids, not in the order they are listed in (floating point sums depend on it)
+	for _, a := range *model.SortAlternativesByName(&params.ConsideredAlternatives) {
 		sortedCriteria := prepareCriteriaInAscendingOrder(&a)
 		_, w := computeTotalWeight(sortedCriteria, &combinedWeights)
 		for _, criteriaValues := range w {
